@@ -34,7 +34,7 @@ def gen_case(chk, i):
     # ranks on every process (looms then sort by minimum rank, not by name),
     # placed cyclically over the looms
     with_ranks = rng.random() < 0.4
-    nstreams = rng.randint(1, 12)
+    nstreams = rng.randint(1, 12) if rng.random() < 0.93 else rng.randint(30, 120)   # now and then a wide merge
     # spans beyond 2^31 and 2^32 ns matter: anything that narrows the 64-bit
     # clock difference only misbehaves when stream heads are seconds apart
     span = rng.choice([5, 50, 2000, 10 ** 6, 3 * 10 ** 9, 5 * 10 ** 9, 10 ** 10, 10 ** 12])
